@@ -288,6 +288,16 @@ class CaseTimeout(BaseException):
     """one implementation call ran far longer than any case of this check should (raised from SIGALRM)"""
 
 
+# set by the runner's alarm handler, cleared before every case: harness callbacks running inside the code under test
+# give up at once when it is set (code that swallows the timeout exception would otherwise carry on for ever)
+TIMED_OUT = [False]
+
+
+def check_timeout():
+    if TIMED_OUT[0]:
+        raise CaseTimeout()
+
+
 # ---------------------------------------------------------------------------------------------
 # known findings
 # ---------------------------------------------------------------------------------------------
